@@ -3,6 +3,7 @@ import json
 import os
 import random
 import time
+import concurrent.futures as cf
 
 from .. import codec, common, container, pyavro
 from . import C15
@@ -23,28 +24,67 @@ def is_prefix(a, b):
     return len(a) <= len(b) and b[:len(a)] == a
 
 
-def apalache_induction():
+def apalache_induction(modname="VectoredWriteInd", cinit_mut="ConstInitMut", moddir="apalache",
+                       what="Init => IndInv; IndInv /\\ Next => IndInv' (buffers <= 3 / 4 / 2 bytes, any contents, any number of steps); mutant refuted"):
     import shutil
     import subprocess
     exe = shutil.which("apalache-mc")
     if not exe:
         return "apalache-mc not installed: skipped"
-    out = common.workdir(f"c16-apalache-{os.getpid()}")
-    mod = os.path.join(common.SPEC, "apalache", "VectoredWriteInd.tla")
+    out = common.workdir(f"c16-apalache-{modname}-{os.getpid()}")
+    mod = os.path.join(common.SPEC, moddir, modname + ".tla") if moddir else os.path.join(common.SPEC, modname + ".tla")
 
     def run_apa(cinit, init, length):
-        p = subprocess.run(["timeout", "900", exe, "check", f"--cinit={cinit}", f"--init={init}", "--inv=IndInv", f"--length={length}", f"--out-dir={out}", mod],
+        p = subprocess.run(["timeout", "1800", exe, "check", f"--cinit={cinit}", f"--init={init}", "--inv=IndInv", f"--length={length}", f"--out-dir={out}", mod],
                            cwd=out, stdout=subprocess.PIPE, stderr=subprocess.STDOUT, text=True)
         return "The outcome is: NoError" in p.stdout, "The outcome is: Error" in p.stdout, p.stdout[-1500:]
-    ok0, _, o0 = run_apa("ConstInit", "Init", 0)
-    ok1, _, o1 = run_apa("ConstInit", "IndInit", 1)
-    _, bad, o2 = run_apa("ConstInitMut", "IndInit", 1)
+    with cf.ThreadPoolExecutor(3) as ex:
+        f0 = ex.submit(run_apa, "ConstInit", "Init", 0)
+        f1 = ex.submit(run_apa, "ConstInit", "IndInit", 1)
+        f2 = ex.submit(run_apa, cinit_mut, "IndInit", 1)
+        (ok0, _, o0), (ok1, _, o1), (_, bad, o2) = f0.result(), f1.result(), f2.result()
     shutil.rmtree(out, ignore_errors=True)
     if not (ok0 and ok1):
-        raise common.ToolError("Apalache did not discharge the inductive invariant of VectoredWriteInd:\n" + (o0 if not ok0 else o1))
+        raise common.ToolError(f"Apalache did not discharge the inductive invariant of {modname}:\n" + (o0 if not ok0 else o1))
     if not bad:
-        raise common.ToolError("Apalache accepts the mutated VectoredWriteInd (off-by-one advance): the inductive invariant is vacuous\n" + o2)
-    return "Init => IndInv; IndInv /\\ Next => IndInv' (buffers <= 3 / 4 / 2 bytes, any contents, any number of steps); mutant refuted"
+        raise common.ToolError(f"Apalache accepts the mutated {modname}: the inductive invariant is vacuous\n" + o2)
+    return what
+
+
+def faulty_events(G, c, o, ref):
+    """Trace_WriterFaulty events of one writer session over a scheduled sink (None: nothing to validate)"""
+    if o.get("res") != "ok" or o["build"]["res"] != "ok":
+        return None
+    a = container.op_alphabet(G)
+    size_of = {json.dumps(a[k]["pres"], sort_keys=True): None for k in "sB"}
+    vals = {"s": container.item_value(1, ""), "B": container.item_value(-300, "xxxxxxxxxx", 9)}
+    for k in "sB":
+        size_of[json.dumps(a[k]["pres"], sort_keys=True)] = len(pyavro.encode(G, 1, vals[k]))
+    evs = [{"ev": "open", "approx": c["approx"]}]
+    for op, st, rst in zip(c["ops"], o["steps"], ref["steps"]):
+        if st["res"] not in ("ok", "err"):
+            break
+        hs = st.get("hs") or [-1, -1, -1]
+        res = "ok" if st["res"] == "ok" else ("err_io" if rst["res"] == "ok" else "err")
+        base = {"ev": "call", "k": 0, "sz": 0, "res": res, "n": hs[0], "pend": hs[1], "bsz": hs[2]}
+        kind = op["op"]
+        if kind == "serialize":
+            sz = size_of.get(json.dumps(op["pres"], sort_keys=True))
+            evs.append(dict(base, op="take", k=1, sz=sz) if sz is not None else dict(base, op="takefail"))
+        elif kind == "push":
+            evs.append(dict(base, op="take", k=op["n"], sz=len(op["bytes"])))
+        elif kind == "serialize_all":
+            if st["res"] != "ok":
+                break                      # (how many of the values were taken before the error is not observable)
+            szs = [size_of[json.dumps(p_, sort_keys=True)] for p_ in op["pres_list"]]
+            for j, sz in enumerate(szs):
+                evs.append(dict(base, op="take", k=1, sz=sz) if j == len(szs) - 1 else
+                           {"ev": "call", "op": "take", "k": 1, "sz": sz, "res": "ok", "n": -1, "pend": -1, "bsz": -1})
+        elif kind in ("finish", "into_inner"):
+            evs.append(dict(base, op="finish"))
+        else:
+            break
+    return evs if len(evs) > 1 else None
 
 
 def run(tier, seed):
@@ -60,8 +100,14 @@ def run(tier, seed):
     # ---- A': the same invariant as an INDUCTIVE invariant (no bound on the number of steps, any buffer contents up to the length bounds),
     #          discharged by Apalache; the off-by-one mutation must break the induction step.  Thorough tier; skipped if Apalache is absent.
     apalache = None
+    apalache_w = None
     if tier != "quick":
-        apalache = apalache_induction()
+        with cf.ThreadPoolExecutor(2) as ex_:
+            fa = ex_.submit(apalache_induction)
+            fb = ex_.submit(apalache_induction, "ContainerWriterFaulty", "ConstInitMut1", "",
+                            "ContainerWriterFaulty: Init => IndInv; IndInv /\\ Next => IndInv' (counters 0..6, approx 0..4, sizes 0..3, every fault at every flush, "
+                            "any number of calls); the writer that does not retry a pending block is refuted")
+            apalache, apalache_w = fa.result(), fb.result()
     # ---- B: schedules on the real writer
     G = container.item_schema()
     rng = random.Random(seed)
@@ -166,6 +212,70 @@ def run(tier, seed):
                               {"fam": "writer_sink", "cmd": tcmds[i], "kind": "transient"}, expected="Trace_Writer.tla with err_io",
                               observed={"results": [s["res"] for s in tobs[i]["steps"]]})
         count["transient_sessions_validated"] = len(tcmds)
+    # ---- the writer's bookkeeping over a failing sink (ContainerWriterFaulty.tla): the design, its inductive invariant, and every
+    #      session above replayed against it call by call with the hook state (which flush failed, and how, is inferred by TLC)
+    fmc = common.run_tlc("ContainerWriterFaulty", "MC_ContainerWriterFaulty.cfg", workers=6, timeout=1200)
+    common.require_tlc_ok(fmc, "ContainerWriterFaulty (forward, all faults)")
+    for mcfg in ("MC_ContainerWriterFaulty_mut1.cfg", "MC_ContainerWriterFaulty_mut2.cfg"):
+        fm = common.run_tlc("ContainerWriterFaulty", mcfg, workers=2, timeout=600)
+        if "is violated" not in fm["out"]:
+            raise common.ToolError(f"ContainerWriterFaulty: the mutated writer ({mcfg}) is not refuted: vacuous")
+    find = None
+    if tier != "quick":
+        find = common.run_tlc("ContainerWriterFaulty", "MC_ContainerWriterFaulty_ind.cfg", workers=8, timeout=2400, xmx="8g")
+        common.require_tlc_ok(find, "ContainerWriterFaulty: IndInv is inductive (every state of IndInit, two steps)")
+    fev, fown = [], []
+    for i, (c, (kind, ci), o) in enumerate(zip(cmds, kinds, obs)):
+        if kind in ("interrupted_at", "mixed", "random"):
+            continue
+        e = faulty_events(G, c, o, refs[ci])
+        if e:
+            fev.extend(e)
+            fown.extend([i] * len(e))
+    nfs = 0
+    if fev:
+        per = max(300, (len(fev) + common.NCPU - 1) // common.NCPU)
+        chunks_f, owners_f, cur, cur_o = [], [], [], []
+        for ev, ow in zip(fev, fown):
+            if ev["ev"] == "open" and len(cur) >= per:
+                chunks_f.append(cur)
+                owners_f.append(cur_o)
+                cur, cur_o = [], []
+            cur.append(ev)
+            cur_o.append(ow)
+        if cur:
+            chunks_f.append(cur)
+            owners_f.append(cur_o)
+        fres = common.validate_traces_parallel("Trace_WriterFaulty", "Trace_WriterFaulty.cfg", chunks_f, timeout=1500)
+        for ch, ow, res in zip(chunks_f, owners_f, fres):
+            rest, rest_o, guard = ch, ow, 0
+            while not res["accepted"] and guard < 6:
+                guard += 1
+                fu = res["first_unmatched"]
+                if fu is None or fu < 1 or fu > len(rest):
+                    raise common.ToolError("Trace_WriterFaulty failed without a usable reject index:\n" + res["out"][-2500:])
+                i = rest_o[fu - 1]
+                # the skeleton is one implementation of C15 / C16 (their rules are judged above and by Trace_Writer): a departure means the
+                # code no longer follows the model TLC checked, not that the property is violated.  Recorded, never an alarm.
+                rep.note(f"[{kinds[i][0]}] session {cmds[i]['codec']}/approx {cmds[i]['approx']}: call {rest[fu - 1]} departs from ContainerWriterFaulty.tla")
+                j = fu
+                while j < len(rest) and rest[j]["ev"] != "open":
+                    j += 1
+                rest, rest_o = rest[j:], rest_o[j:]
+                if not rest:
+                    break
+                res = common.validate_trace("Trace_WriterFaulty", "Trace_WriterFaulty.cfg", rest, timeout=1500)
+        nfs = len([e for e in fev if e["ev"] == "open"])
+        # binding: a wrong hook state must be rejected
+        k0 = next((k for k, e in enumerate(fev) if e["ev"] == "call" and e["n"] >= 0), None)
+        if k0 is not None:
+            start = max(j for j in range(k0 + 1) if fev[j]["ev"] == "open")
+            good = fev[start:k0 + 1]
+            badt = good[:-1] + [dict(good[-1], n=good[-1]["n"] + 1)]
+            if common.validate_trace("Trace_WriterFaulty", "Trace_WriterFaulty.cfg", good)["accepted"] and \
+                    common.validate_trace("Trace_WriterFaulty", "Trace_WriterFaulty.cfg", badt)["accepted"]:
+                raise common.ToolError("Trace_WriterFaulty accepts a wrong hook state: vacuous")
+    count["faulty_sink_sessions_replayed_against_model"] = nfs
     # ---- C: the real write_vectored call sequences validated against VectoredWrite
     chunks = []
     cur = []
@@ -198,6 +308,9 @@ def run(tier, seed):
         "samples": [cmds[0], cmds[len(cmds) // 2]], "exhaustive": False,
     }
     cov["apalache_inductive_invariant"] = apalache or "thorough tier only"
+    cov["apalache_inductive_invariant_writer"] = apalache_w or "thorough tier only"
+    cov["writer_faulty_sink_model"] = {"forward_states": fmc["distinct"], "inductive_states": find["distinct"] if find else "thorough tier only",
+                                        "sessions_replayed": nfs}
     common.write_evidence(PROP, tier, seed, "model_checking", cov,
                           ["oracle = VectoredWrite.tla (loop) + byte equality with the all-accepting sink's stream",
                            "harness built with debug assertions (the crate's Drop impl asserts in that configuration)",
